@@ -11,6 +11,7 @@ namespace Nervus.Driver.PagerStream
 open Nervus Nervus.Pager Nervus.Driver
 
 structure St where
+  started : Bool     -- a `mode` line created the state the other ops need
   eng : Bool
   s : Sys
   trig : Bool        -- some node-table growth met the trigger (C18-i2e-growth)
@@ -18,8 +19,9 @@ structure St where
   csrHit : Bool      -- … and that page is the first page of a CSR segment
   stale : Bool       -- reopened since the CSR page was hit (the damaged bytes are read back)
   fresh : Nat        -- owner-id counter for engine-level structures
+  abused : Bool      -- the harness freed a page only the node table owns (no engine op does that): spec silent
 
-def init : St := ⟨false, Pager.init Cfg.real, false, [], false, false, 0⟩
+def init : St := ⟨false, false, Pager.init Cfg.real, false, [], false, false, 0, false⟩
 
 def c : Cfg := Cfg.real
 
@@ -96,12 +98,12 @@ def allocEng (st : St) (kind : Nat) : St :=
   let st' := (apply st (.alloc (kind + st.fresh))).1
   { st' with fresh := st.fresh + 1 }
 
-def step (st : St) (ws : List String) : St × String × String × String :=
+def stepStarted (st : St) (ws : List String) : St × String × String × String :=
   match ws with
-  | ["mode", "pg"] => ({ init with eng := false }, "ok", "-", "")
+  | ["mode", "pg"] => ({ init with started := true, eng := false }, "ok", "-", "")
   | ["mode", "eng"] =>
     -- GraphEngine::open on an empty directory: index catalog page, then the two reserved HNSW trees
-    let st := allocEng (allocEng (allocEng { init with eng := true } 10) 20) 30
+    let st := allocEng (allocEng (allocEng { init with started := true, eng := true } 10) 20) 30
     (st, "ok", "-", "")
   | ["alloc", o] =>
     match o.toNat? with
@@ -130,10 +132,11 @@ def step (st : St) (ws : List String) : St × String × String × String :=
       match free c st.s.pg p with
       | .ok pg' =>
         let s' := { st.s with pg := pg', own := st.s.own.filter (fun x => !(x.1 == p && x.2 != Owner.i2e)) }
-        ({ st with s := s' }, "ok", "-", trigStr st)
+        let mine := st.s.own.contains (p, Owner.i2e) && !(st.s.own.any (fun x => x.1 == p && x.2 != Owner.i2e))
+        ({ st with s := s', abused := st.abused || mine }, "ok", "-", trigStr st)
       | .error _ => (st, "err", "-", trigStr st)
     | none => (st, "bad-op", "-", "")
-  | ["check"] => (st, (if intact st then "ok" else "corrupt"), "ok", trigStr st)
+  | ["check"] => (st, (if intact st then "ok" else "corrupt"), (if st.abused then "-" else "ok"), trigStr st)
   | ["reopen"] =>
     if st.eng then ({ st with stale := st.stale || st.csrHit }, "ok", "ok", trigStr st)
     else if i2eReadable st.s then (st, "ok | " ++ tail st.s, "-", trigStr st)
@@ -151,6 +154,13 @@ def step (st : St) (ws : List String) : St × String × String × String :=
     (st, (if decide (ownedOnce st.s) then "ok" else "conflict") ++ " | i2e=" ++ toString pages, "ok", trigStr st)
   | ["dump"] => (st, (if st.stale then "bad" else "ok"), "ok", trigStr st)
   | _ => (st, "bad-op", "-", "")
+
+/-- an op that needs a state which does not exist (no `mode` line yet — e.g. a shrunk replay that lost
+    its set-up) is `bad-op` on both sides and the spec says nothing about it -/
+def step (st : St) (ws : List String) : St × String × String × String :=
+  match ws with
+  | ["mode", _] => stepStarted st ws
+  | _ => if st.started then stepStarted st ws else (st, "bad-op", "-", "")
 
 def stream : Stream := { σ := St, init := init, step := step }
 
